@@ -58,54 +58,71 @@ def r0_1(ctx):
                 vals = dict(zip(fields, r[3]))
                 ok = vals["color"] == ("arg", 1) and vals["kind"] == ("agg", "board::PieceKind", kind.capitalize(), ())
         ctx.ob("Piece::%s" % kind, ok, b.file, "Piece::%s(c) is Piece { kind: %s, color: c }" % (kind, kind.capitalize()))
-    # Square predicates
-    sqv = lambda x: x == ("arg", 1) or x == ("deref", ("arg", 1))
-    b, ps = _paths(f, "board::Square::is_empty")
+    # Square predicates and Square == Piece: finite instantiation.  Each is executed (wa/symex, the
+    # primitives it calls executed too) on every square value - Empty, Boundary, Full(each of the 12
+    # pieces) - and every colour / piece argument; the one path that results must return what the
+    # name says.  So a three-arm match, `matches!`, `self.is_empty() || self.is_color(c)`, or
+    # delegation to the derived equality through Square::from are the same function.
+    from wa.symex import SymEx
+    from wa.itermodel import xbody
+    colours = ("White", "Black")
+    kinds = sorted(f.enum_variants("board::PieceKind"))
+    pfields = f.struct_fields("board::Piece")
+    pvar = f.adt("board::Piece")["variants"][0]["name"]
+
+    def piece(c, k):
+        vals = {"color": ("agg", "board::PieceColor", c, ()), "kind": ("agg", "board::PieceKind", k, ())}
+        return ("agg", "board::Piece", pvar, tuple(vals[x] for x in pfields))
+    squares = [("Empty", ("agg", "board::Square", "Empty", ())), ("Boundary", ("agg", "board::Square", "Boundary", ()))] + \
+        [((c, k), ("agg", "board::Square", "Full", (piece(c, k),))) for c in colours for k in kinds]
+
+    def run(fn, args):
+        b = xbody(f, fn)
+        env = {}
+        for i, a in enumerate(args):
+            env[i + 1] = ("ref", a) if b.local_ty(i + 1).startswith("&") else a
+        sx = SymEx(f, inline=lambda n: f.has_body(n), body_of=lambda n: xbody(f, n))
+        ps = [p for p in sx.run(b, 0, env) if p.end == "return"]
+        if len(ps) != 1 or ps[0].conds or ps[0].ret is None or ps[0].ret[0] != "const":
+            return None
+        return ps[0].ret[1]
+
     ctx.note_fn("board::Square::is_empty", "board::Square::is_color", "board::Square::is_empty_or_color")
-    ok = len(ps) == 1 and ps[0][0][0] == "bin" and ps[0][0][1] == "Eq" and {strip_refs(ps[0][0][2]), strip_refs(ps[0][0][3])} == {("arg", 1), ("agg", "board::Square", "Empty", ())}
-    if not ok:
-        # match form
-        res = {}
-        for r, conds, _ in ps:
-            poss = _variant_of(f, conds, sqv, "board::Square")
-            for v in poss:
-                res.setdefault(v, set()).add(r)
-        ok = res.get("Empty") == {("const", True)} and res.get("Full") == {("const", False)} and res.get("Boundary") == {("const", False)}
-    ctx.ob("Square::is_empty", ok, b.file, "true exactly for Square::Empty (so sentinel squares stop every walk)")
-    for fn, empty_val in (("board::Square::is_color", False), ("board::Square::is_empty_or_color", True)):
-        b, ps = _paths(f, fn)
-        res = {}
-        for r, conds, _ in ps:
-            poss = _variant_of(f, conds, sqv, "board::Square")
-            for v in poss:
-                res.setdefault(v, []).append(r)
-        okf = False
-        full = res.get("Full", [])
-        if len(full) == 1 and full[0][0] == "bin" and full[0][1] == "Eq":
-            a, c = strip_refs(full[0][2]), strip_refs(full[0][3])
-            colour_of_piece = lambda x: x[0] == "field" and x[2] == "color" and x[1][0] == "field" and x[1][1][0] == "downcast" and x[1][1][2] == "Full"
-            okf = (a == ("arg", 2) and colour_of_piece(c)) or (c == ("arg", 2) and colour_of_piece(a))
-        ok = okf and res.get("Empty") == [("const", empty_val)] and res.get("Boundary") == [("const", False)]
-        ctx.ob(fn.split("board::")[-1], ok, b.file, "Full(p) -> p.color == c; Empty -> %s; Boundary -> false (%s)" % (empty_val, {k: [show_expr(x)[:40] for x in v] for k, v in res.items()}))
-    # Square == Piece
+    specs = (("board::Square::is_empty", False, lambda st, c: st == "Empty", "true exactly for Square::Empty (so sentinel squares stop every walk)"),
+             ("board::Square::is_color", True, lambda st, c: isinstance(st, tuple) and st[0] == c, "Full(p) -> p.color == c; Empty -> false; Boundary -> false"),
+             ("board::Square::is_empty_or_color", True, lambda st, c: st == "Empty" or (isinstance(st, tuple) and st[0] == c), "Full(p) -> p.color == c; Empty -> true; Boundary -> false"))
+    for fn, takes_colour, spec, text in specs:
+        b = f.body(fn)
+        bad = []
+        n = 0
+        try:
+            for st, sv in squares:
+                for c in (colours if takes_colour else (None,)):
+                    got = run(fn, [sv] + ([("agg", "board::PieceColor", c, ())] if takes_colour else []))
+                    n += 1
+                    if got is None or bool(got) != spec(st, c):
+                        bad.append((st, c, got))
+        except ShapeNotRecognised as e:
+            bad.append(("cannot execute", str(e)[:80], None))
+        ctx.ob(fn.split("board::")[-1], not bad and n > 0, b.file, "%s: evaluated for %d (square, colour) values%s" % (
+            text, n, "" if not bad else "; WRONG for %d, e.g. square %s colour %s -> %s" % (len(bad), bad[0][0], bad[0][1], bad[0][2])))
     fn = "<board::Square as std::cmp::PartialEq<board::Piece>>::eq"
-    b, ps = _paths(f, fn)
+    b = f.body(fn)
     ctx.note_fn(fn)
-    res = {}
-    for r, conds, _ in ps:
-        poss = _variant_of(f, conds, lambda x: x in (("arg", 1), ("deref", ("arg", 1))), "board::Square")
-        for v in poss:
-            res.setdefault(v, []).append(r)
-    full = res.get("Full", [])
-    okf = False
-    if len(full) == 1:
-        e = full[0]
-        if e[0] == "bin" and e[1] == "Eq":
-            a, c = strip_refs(e[2]), strip_refs(e[3])
-            payload = lambda x: x[0] == "field" and x[2] == "0" and x[1][0] == "downcast" and x[1][2] == "Full"
-            okf = (payload(a) and c == ("arg", 2)) or (payload(c) and a == ("arg", 2))
-    ctx.ob("Square==Piece", okf and res.get("Empty") == [("const", False)] and res.get("Boundary") == [("const", False)], b.file,
-           "Full(p) == q iff p == q; other squares never equal a piece")
+    bad = []
+    n = 0
+    try:
+        for st, sv in squares:
+            for c in colours:
+                for k in kinds:
+                    got = run(fn, [sv, piece(c, k)])
+                    n += 1
+                    if got is None or bool(got) != (st == (c, k)):
+                        bad.append((st, (c, k), got))
+    except ShapeNotRecognised as e:
+        bad.append(("cannot execute", str(e)[:80], None))
+    ctx.ob("Square==Piece", not bad and n > 0, b.file, "Full(p) == q iff p == q; other squares never equal a piece: evaluated for %d (square, piece) pairs%s" % (
+        n, "" if not bad else "; WRONG for %d, e.g. %s == %s -> %s" % (len(bad), bad[0][0], bad[0][1], bad[0][2])))
     # From<Piece>
     fn = "<board::Square as std::convert::From<board::Piece>>::from"
     b, ps = _paths(f, fn)
